@@ -87,6 +87,14 @@ def _assigned_in_class(cls, name):
     return name in names or '*' in names
 
 
+def _pure_simple(node):
+    """expression without calls / attribute access: constants, names, subscripts, arithmetic"""
+    for n in ast.walk(node):
+        if not isinstance(n, (ast.Constant, ast.Name, ast.Subscript, ast.BinOp, ast.UnaryOp, ast.Load, ast.operator, ast.unaryop, ast.Index)):
+            return False
+    return True
+
+
 class InterpFunction:
     """lambda or nested def closed over an interpreter frame."""
 
@@ -966,7 +974,17 @@ class Interp:
             if isinstance(a, (int, SInt)) and isinstance(b, (int, SInt)):
                 return wrap_int(z3.If(c, int_term(a), int_term(b)))
             raise Unsupported('conditional expression of non-scalar values inside an invariant')
-        if truth(self.ctx, self.eval(node.test, frame)):
+        tv = self.eval(node.test, frame)
+        tt = truth_term(self.ctx, tv)
+        if not isinstance(tt, bool) and _pure_simple(node.body) and _pure_simple(node.orelse):
+            # `a if c else b` over plain integer operands: an if-then-else term instead of a path split
+            try:
+                a, b = self.eval(node.body, frame), self.eval(node.orelse, frame)
+                if isinstance(a, (int, SInt)) and isinstance(b, (int, SInt)) and not isinstance(a, bool) and not isinstance(b, bool):
+                    return wrap_int(z3.If(tt, int_term(a), int_term(b)))
+            except PyRaise:
+                pass
+        if truth(self.ctx, tv):
             return self.eval(node.body, frame)
         return self.eval(node.orelse, frame)
 
